@@ -8317,15 +8317,18 @@ def _recursively_perform_action(start_node, action, exclude_items=[_T_MENU, _T_C
     """
 
     def rec(node):
-        if node.item not in exclude_items:
-            action_ok = action(node)
-        else:
-            action_ok = True
-        if node.list:
-            action_ok = rec(node.list) and action_ok
-        if node.next and node != start_node:
-            # Don't recurse into the start_node.next, as it is not a child of start_node, but rather a sibling.
-            action_ok = rec(node.next) and action_ok
+        # Recurses into children only; siblings are walked in a loop (a menu may hold more entries than the
+        # interpreter allows nested calls).
+        action_ok = True
+        while node:
+            if node.item not in exclude_items:
+                action_ok = action(node) and action_ok
+            if node.list:
+                action_ok = rec(node.list) and action_ok
+            if node == start_node:
+                # Don't go on to start_node.next, as it is not a child of start_node, but rather a sibling.
+                break
+            node = node.next
         return action_ok
 
     return rec(start_node)
